@@ -44,7 +44,7 @@ def vtk_case(draw):
             # component -> axis mapping: default, or any assignment of the labels to the axes (None = unmapped)
             "mapping": draw(st.one_of(st.none(), st.permutations([0, 1, 2, None][:max(k, 3)]).map(lambda p: list(p)[:k]))),
             "vdims": vdims, "seed": draw(st.integers(0, 2**31)),
-            "dtype": draw(st.sampled_from(["float", "float", "int", "int32", "int16"])), "mask": draw(gen.mask_spec(3)),
+            "dtype": draw(st.sampled_from(["float", "float", "int", "int32", "int16", "float32"])), "mask": draw(gen.mask_spec(3)),
             "rep": draw(st.sampled_from(REPS)), "probes": [draw(gen.probe_spec(g["n"], ("c", "v", "f"))) for _ in range(6)],
             "save_subregions": draw(st.booleans()), "unit": draw(st.sampled_from(gen.FIELD_UNITS))}
 
@@ -65,6 +65,9 @@ def build(case):
         arr = (arr.astype(np.int64) * (big // 10))
         arr[..., 0] = big + np.arange(int(np.prod(n))).reshape(n)
         arr = arr.astype(case["dtype"])
+    if case["dtype"] == "float32":
+        # values that need more than the six digits a "%g" keeps
+        arr = (arr * 1.0009765625 + 1.0 / 3.0).astype(np.float32)
     valid = gen.make_mask(case["mask"], n)
     kw = {"vdims": list(case["vdims"])} if case["vdims"] else {}
     if case.get("mapping") and case["k"] > 1:
@@ -72,7 +75,7 @@ def build(case):
         dims = gen.dims_of(g)
         mp = {labels[c]: (None if a is None else dims[a]) for c, a in enumerate(case["mapping"])}
         kw["vdim_mapping"] = gen.shuffled_mapping(mp, case["seed"])
-    f = df.Field(mesh, nvdim=case["k"], value=arr, dtype={"int": np.int64, "int32": np.int32, "int16": np.int16}.get(case["dtype"]), valid=valid,
+    f = df.Field(mesh, nvdim=case["k"], value=arr, dtype={"int": np.int64, "int32": np.int32, "int16": np.int16, "float32": np.float32}.get(case["dtype"]), valid=valid,
                  unit=case["unit"], **kw)
     return mesh, f, arr, valid
 
@@ -141,7 +144,8 @@ def check_grid(case, grid, f, arr, valid, lat, what, rtol):
         for c, lab in enumerate(labels):
             if not close(arrays[lab][cid], arr[idx][c]):
                 raise Violation(f"{what}-component-value", f"component {lab} at {p}: {arrays[lab][cid]} vs {arr[idx][c]}")
-        if not np.allclose(arrays["norm"][cid], norm[idx], rtol=max(rtol, 1e-12), atol=0):
+        # a 4-byte field has a 4-byte norm (unit round-off 6e-8, times the number of components)
+        if not np.allclose(arrays["norm"][cid], norm[idx], rtol=max(rtol, 1e-6 if arr.dtype == np.float32 else 1e-12), atol=0):
             raise Violation(f"{what}-norm-value", f"at {p}: {arrays['norm'][cid]} vs {norm[idx]}")
         if bool(arrays["valid"][cid]) != bool(valid[idx]):
             raise Violation(f"{what}-valid-flag", f"at {p}: VTK cell {cid} has valid={arrays['valid'][cid]}, mesh cell "
